@@ -166,6 +166,8 @@ func (p *Pipe) RunCLIHow(it *Item, env []string, how string) {
 				err = e
 			}
 		}
+	case strings.HasPrefix(how, "loglevel-"):
+		out, err = load.Run(dir, false, 2*time.Minute, env, p.CLI, append([]string{"-l", strings.TrimPrefix(how, "loglevel-")}, args...)...)
 	case how == "last-alone":
 		out, err = load.Run(dir, false, 2*time.Minute, env, p.CLI, args[len(args)-1])
 	default:
